@@ -65,6 +65,24 @@ NEEDS = {
     "C17c": "a stream that ends mid-line with an invalid UTF-8 tail: the TransportReadError constructor now decodes the partial bytes for its message",
     "C18c": "a read already waiting on the empty queue when the broker error arrives: the error is no longer queued, only a flag is set for later reads",
     "C19c": "S_HEATER/S_CUSTOM child and a value type listed for it in 1.4 but not later (same change as C19b, found independently)",
+    # fourth round: the change had to act indirectly, in a file or function the property's text does not point at
+    "C01d": "a payload with leading whitespace: Message.__init__ now strips the payload (both encode and decode pass through the constructor)",
+    "C02d": "protocol 2.2 and command 5-7 with a child other than 255: an own Command enum in protocol_22 (same change as C02b, found independently)",
+    "C03d": "a version report that the version library accepts but that has no minor section ('2', 'latest'): get_protocol builds AwesomeVersion(f'{major}.{minor}') and the comparison raises AwesomeVersionCompareException",
+    "C04d": "child presentation, set, the same child presented again with the same type: Node.add_child now updates the child in place and keeps its values",
+    "C05d": "2.x active, node 0 known, a gateway presentation with another version: the 2.0 handle_presentation override returns early for known nodes and never reaches handle_i_version",
+    "C06d": "an unusable version report while the version is unknown: the setter stores the string before get_protocol validates it, so the version query is never sent again (same effect as the first C05 seed, through C06's clause)",
+    "C07d": "a 1.x node restored from persistence with sleeping=true: Node.__init__ drops the flag for protocol versions starting with '1.'",
+    "C08d": "a write fault during a release: the shared internal dispatcher (handle_internal of 1.4) now swallows TransportError as 'best effort', listen() yields normally",
+    "C10d": "2.x: an outstanding request for node N, then a gateway presentation or version reply: handle_i_version clears all request markers",
+    "C11d": "a registry whose highest id is exactly 253: MAX_NODE_ID became range(1, 254)[-1] == 253 in model/const.py",
+    "C12d": "any outgoing stream message (command 4): the pass-through handlers moved to the base class, handle_stream became a body-less 'abstract' stub that nothing enforces",
+    "C13d": "node 255 registered, then an id request: the capacity guard counts nodes, id 256 is handed out and saved, the file no longer loads (same change as C11b, seen through C13)",
+    "C14d": "a child record with child_id outside 0..254: a new range check in Child.__init__ raises ValueError, which load() does not convert",
+    "C16d": "a stream transport whose peer stalls the close for more than 5 s: disconnect waits with asyncio.wait(timeout), which does not cancel, and leaves the wait_closed() task behind",
+    "C17d": "an undecodable complete line or a stream cut inside a multi-byte character: TransportReadError's constructor decodes the partial bytes (exceptions.py)",
+    "C18d": "an MQTT payload containing a line-boundary character (newline, U+2028, \\x1c ...): MessageSchema.to_dict now takes the first of splitlines()",
+    "C19d": "I_LOG_MESSAGE / I_GATEWAY_READY with a child id other than 255: NODE_ID_REQUEST_TYPES was widened in protocol_14 only, the newer modules keep their own copies",
     "C19b": "a child of type S_HEATER / S_CUSTOM and a set whose value type the 1.4 table lists for it but newer tables do not (or vice versa): shared handle_set consults the per-version table",
 }
 
